@@ -1018,3 +1018,69 @@ def every_path_passes_correlated(body, src, dst_set, through, pure_pats=('is_emp
             return False, 'path reaching bb%d avoids the required call under %s' % (
                 bad, dict(zip([k[0] + str(sorted(k[1])) for k in keys], assignment)))
     return True, '%d correlated predicate group(s)' % len(keys)
+
+
+# --------------------------------------------------------------------------------------------
+# pattern algebra (structural, conservative)
+
+
+def pat_subsumes(g, s):
+    """pattern g matches every value that pattern s matches (structural, conservative)"""
+    g = strip_ref(g)
+    s = strip_ref(s)
+    k = g.get('k')
+    if k in ('wild', 'bind'):
+        return True
+    if k == 'or':
+        return any(pat_subsumes(x, s) for x in g['s'])
+    if s.get('k') == 'or':
+        return all(pat_subsumes(g, x) for x in s['s'])
+    if k == 'path':
+        return s.get('k') == 'path' and s['p'] == g['p']
+    if k == 'ts':
+        if s.get('k') != 'ts' or s['p'] != g['p']:
+            return False
+        gs, ss = _expand(g), _expand(s)
+        n = max(len(gs), len(ss))
+        gs += [{'k': 'wild'}] * (n - len(gs))
+        ss += [{'k': 'wild'}] * (n - len(ss))
+        return all(pat_subsumes(a, b) for a, b in zip(gs, ss))
+    if k == 'tuple':
+        if s.get('k') != 'tuple' or len(s['s']) != len(g['s']):
+            return False
+        return all(pat_subsumes(a, b) for a, b in zip(g['s'], s['s']))
+    return False
+
+
+def _expand(p):
+    subs = list(p['s'])
+    if p.get('dd', -1) >= 0:
+        subs = subs[:p['dd']] + [{'k': 'wild'}] * 4 + subs[p['dd']:]
+        # `..` in the middle never occurs here; pad generously, comparison pads the other side
+        subs = p['s'][:p['dd']] + [{'k': 'wild'}] * 4
+    return subs
+
+
+def pat_disjoint(a, b):
+    a = strip_ref(a)
+    b = strip_ref(b)
+    ka, kb = a.get('k'), b.get('k')
+    if ka in ('wild', 'bind') or kb in ('wild', 'bind'):
+        return False
+    if ka == 'or':
+        return all(pat_disjoint(x, b) for x in a['s'])
+    if kb == 'or':
+        return all(pat_disjoint(a, x) for x in b['s'])
+    if ka in ('path', 'ts', 'struct') and kb in ('path', 'ts', 'struct'):
+        if a['p'] != b['p']:
+            return True
+        if ka == 'ts' and kb == 'ts':
+            for x, y in zip(_expand(a), _expand(b)):
+                if pat_disjoint(x, y):
+                    return True
+        return False
+    if ka == 'tuple' and kb == 'tuple':
+        return any(pat_disjoint(x, y) for x, y in zip(a['s'], b['s']))
+    return False
+
+
